@@ -40,6 +40,8 @@ pub struct IrrDb {
     pub errors_once: BTreeMap<String, String>,
     /// answer `C` instead of `D` for an AS without routes
     pub empty_as_c: bool,
+    /// answers are written in pieces of this many bytes (0: in one piece)
+    pub dribble: usize,
     /// make every answer at least this many bytes long without changing what it means: remarks lines in objects,
     /// repeated members / routes in lists (real registries have objects and route lists of many kilobytes)
     pub pad: usize,
@@ -82,6 +84,7 @@ impl IrrDb {
                 .unwrap_or_default(),
             empty_as_c: v["empty_as_c"].as_bool().unwrap_or(false),
             pad: v["pad"].as_u64().unwrap_or(0) as usize,
+            dribble: v["dribble"].as_u64().unwrap_or(0) as usize,
         }
     }
 
@@ -343,10 +346,21 @@ pub fn start_irrd(db: IrrDb, mode: &str) -> FakeIrrd {
                         None => db.answer(&q),
                     };
                     if let Some(a) = answer {
-                        if w.write_all(a.as_bytes()).is_err() {
+                        let piece = if db.dribble == 0 { a.len().max(1) } else { db.dribble };
+                        let mut broken = false;
+                        for part in a.as_bytes().chunks(piece) {
+                            if w.write_all(part).is_err() {
+                                broken = true;
+                                break;
+                            }
+                            let _ = w.flush();
+                            if db.dribble > 0 {
+                                std::thread::yield_now();
+                            }
+                        }
+                        if broken {
                             break;
                         }
-                        let _ = w.flush();
                     }
                 }
             });
@@ -418,7 +432,12 @@ pub fn denote(filter: &str) -> (Vec<String>, bool) {
     }
     // second universe, for policies with thousands of ranges: the /24s under 172.16.0.0/12 and the /48s under
     // 2001:db9::/36 (4096 atoms each); a filter there denotes the atoms of exactly that length it covers
-    let (broot, brl, blen): (u128, u8, u8) = if v6 { (0x2001_0db9_0000_0000_0000_0000_0000_0000, 36, 48) } else { (0xac10_0000, 12, 24) };
+    let (mut broot, mut brl, blen): (u128, u8, u8) = if v6 { (0x2001_0db9_0000_0000_0000_0000_0000_0000, 36, 48) } else { (0xac10_0000, 12, 24) };
+    // ... and, for runs with many policies of some hundred ranges each, the /24s under 100.64.0.0/10
+    if !v6 && l >= 10 && (a & mask(bits, 10)) == 0x6440_0000 {
+        broot = 0x6440_0000;
+        brl = 10;
+    }
     if l >= brl && (a & mask(bits, brl)) == broot {
         let mut atoms = Vec::new();
         if l <= blen && lo <= blen && blen <= hi {
@@ -773,15 +792,32 @@ pub fn apply_get_filter(req: &Elem, config_xml: &str) -> Result<String, String> 
 /// One `load-configuration` payload projected to the shape Junos.tla's Load understands.
 /// `foreign`: paths of anything that is not a policy-statement (or not understood inside one).
 pub fn project_update(cfg: &Elem) -> Value {
+    project_update_in(cfg, &[])
+}
+
+/// `installed`: names of the policy-statements the instance holds - a delete of a whole container
+/// (`<policy-options delete="delete"/>`, `<configuration delete="delete"/>`) is a delete of every one of them
+pub fn project_update_in(cfg: &Elem, installed: &[String]) -> Value {
     let mut foreign: Vec<String> = Vec::new();
     let mut policies = Vec::new();
     if cfg.name != "configuration" {
         foreign.push(format!("/{}", cfg.name));
     }
+    let wipe = |policies: &mut Vec<Value>| {
+        for n in installed {
+            policies.push(json!({"policy": n, "delete": true, "terms": [], "reject": false, "comment": "", "expr": ""}));
+        }
+    };
+    if cfg.is_delete() {
+        wipe(&mut policies);
+    }
     for c in &cfg.children {
         if c.name != "policy-options" {
             foreign.push(format!("/configuration/{}", c.name));
             continue;
+        }
+        if c.is_delete() {
+            wipe(&mut policies);
         }
         for ps in &c.children {
             if ps.name != "policy-statement" {
@@ -1288,6 +1324,7 @@ async fn serve_session<S: tokio::io::AsyncRead + tokio::io::AsyncWrite + Unpin>(
     let mut staged: Option<Eph> = None; // the open ephemeral instance of this session
     let mut nload = 0usize;
     let mut delayed: Vec<String> = Vec::new(); // failing replies held back until later loads arrived
+    let mut late: Vec<String> = Vec::new(); // positive replies held back until the next request was answered
     let mut first = true;
     loop {
         // next message
@@ -1296,8 +1333,17 @@ async fn serve_session<S: tokio::io::AsyncRead + tokio::io::AsyncWrite + Unpin>(
                 break Some(inbuf.drain(..pos + EOM.len()).collect::<Vec<u8>>());
             }
             let mut b = [0u8; 16384];
-            match tokio::time::timeout(Duration::from_secs(30), stream.read(&mut b)).await {
+            // a positive reply that is being held back ("late-ok") goes out after the reply to the next request - or, if
+            // the client does not pipeline and no further request comes, after a moment (then it was merely slow)
+            let wait = if late.is_empty() { Duration::from_secs(30) } else { Duration::from_millis(250) };
+            match tokio::time::timeout(wait, stream.read(&mut b)).await {
                 Ok(Ok(n)) if n > 0 => inbuf.extend_from_slice(&b[..n]),
+                Err(_) if !late.is_empty() => {
+                    for r in late.drain(..) {
+                        let _ = stream.write_all(r.as_bytes()).await;
+                    }
+                    let _ = stream.flush().await;
+                }
                 _ => break None,
             }
         };
@@ -1335,6 +1381,8 @@ async fn serve_session<S: tokio::io::AsyncRead + tokio::io::AsyncWrite + Unpin>(
         // a damaged reply (C14): the router did what was asked, only its answer is garbage
         let mutated = fault.as_ref().map_or(false, |f| f.kind.starts_with("mut:"));
         ev["mutated"] = json!(mutated);
+        // a reply that is merely overtaken by the next one is no fault: the router does what was asked
+        let late_ok = fault.as_ref().map_or(false, |f| f.kind == "late-ok");
         // what the request means
         let mut reply_body = String::new();
         match kind.as_str() {
@@ -1345,7 +1393,7 @@ async fn serve_session<S: tokio::io::AsyncRead + tokio::io::AsyncWrite + Unpin>(
                     .or_else(|| req.children[0].child("ephemeral").map(|_| "<default>".to_string()))
                     .unwrap_or_else(|| "<private>".into());
                 ev["instance"] = json!(inst);
-                if fault.is_none() || mutated {
+                if fault.is_none() || mutated || late_ok {
                     staged = Some(st.lock().unwrap().eph.clone());
                 }
             }
@@ -1377,7 +1425,8 @@ async fn serve_session<S: tokio::io::AsyncRead + tokio::io::AsyncWrite + Unpin>(
                 ev["format"] = json!(lc.attr("format").unwrap_or(""));
                 ev["nload"] = json!(nload);
                 ev["db_open"] = json!(staged.is_some());
-                let upd = lc.child("configuration").map(project_update).unwrap_or_else(|| {
+                let installed: Vec<String> = staged.as_ref().map(|s| s.iter().map(|(n, _)| n.clone()).collect()).unwrap_or_default();
+                let upd = lc.child("configuration").map(|c| project_update_in(c, &installed)).unwrap_or_else(|| {
                     json!({"policies": [], "foreign": lc.children.iter().map(|c| format!("/{}", c.name)).collect::<Vec<_>>()})
                 });
                 ev["update"] = upd.clone();
@@ -1408,7 +1457,7 @@ async fn serve_session<S: tokio::io::AsyncRead + tokio::io::AsyncWrite + Unpin>(
                 let cc = &req.children[0];
                 let effective = cc.child("check").is_none() && cc.child("confirmed").is_none();
                 ev["effective"] = json!(effective);
-                if (fault.is_none() || mutated) && effective {
+                if (fault.is_none() || mutated || late_ok) && effective {
                     if let Some(s) = staged.clone() {
                         st.lock().unwrap().eph = s;
                     }
@@ -1503,7 +1552,19 @@ async fn serve_session<S: tokio::io::AsyncRead + tokio::io::AsyncWrite + Unpin>(
                 return;
             }
             "close-after" => vec![ok_reply],
+            // replies may overtake each other: this one is sent after the reply to the next request
+            "late-ok" if kind != "close-session" => {
+                late.push(ok_reply);
+                vec![]
+            }
             _ => vec![ok_reply],
+        };
+        let to_send: Vec<String> = if fk != "late-ok" && !late.is_empty() {
+            let mut v = to_send;
+            v.append(&mut late);
+            v
+        } else {
+            to_send
         };
         let released: Vec<String> = if fk != "delayed-error" && !delayed.is_empty() {
             // a later request arrived: answer it first, then release the held-back failure
